@@ -432,7 +432,12 @@ Print Assumptions dont_dedup_unshared_tail.
 
 (* ---- layout_follows_order ----------------------------------------------------------------------- *)
 (* two files that both write blocks, in packing order: the later one lies behind the earlier one, or
-   deduplication was allowed for it (and it starts inside the output: it shares earlier storage) *)
+   deduplication was allowed for it (and it starts inside the output: it shares earlier storage).
+   WEAK (audit 4, finding 1): the second half of the right disjunct holds for EVERY file that stores a byte, so the right
+   disjunct is just "file 2 does not carry DONT_DEDUPLICATE" and this theorem says nothing about such files (it is
+   dont_dedup_unshared_blocks plus a tautology).  Kept for reference; the statements that constrain the default case are
+   layout_follows_order_strong (the sharing escape = what deduplication really guarantees), layout_log_strong and
+   distinct_data_laid_out_in_order (no escape, every flag word) in the last section of this file. *)
 Theorem layout_follows_order :
   forall (hashf : list N -> N) (compress : list N -> option (list N))
          (uncompress : list N -> nat -> option (list N)) (bs half : nat),
@@ -454,7 +459,9 @@ Print Assumptions layout_follows_order.
    end of the output as the older entries left it ([wm]: the maximum of their ends, initially the
    length of the initial content), or is a file without DONT_DEDUPLICATE that starts before that mark;
    and the output ends where the log says: nothing is wasted, nothing is out of order.
-   ([fl_of bs files fid]: the flags of file fid.) *)
+   ([fl_of bs files fid]: the flags of file fid.)
+   The shared case here is only "starts before that mark"; layout_log_strong (last section) carries the bytes of every
+   entry, states the output as the replay of the log and says what stood at the start offset of a shared entry. *)
 Theorem layout_log :
   forall (hashf : list N -> N) (compress : list N -> option (list N))
          (uncompress : list N -> nat -> option (list N)) (bs half : nat),
@@ -760,7 +767,10 @@ Print Assumptions sort_file_without_directives_is_default.
    (2) for two files i < j of that order that both leave bytes in the data area ([stored_bytes]: the blocks as stored,
        for the flag word the sort file gave the file, with -T applied): file j starts at or behind the end of file i,
        or the sort file did not give it dont_deduplicate and it starts inside what was already written (the block
-       writer found an identical run: share_only_identical_run);
+       writer found an identical run: share_only_identical_run)
+       - WEAK (audit 4, finding 1): as stated, the second alternative holds for every file without dont_deduplicate that
+       stores a byte, so clause (2) constrains flagged files only; layout_follows_sort_file_strong (last section) adds
+       the clause that constrains all files (share_ok) -;
    (3) every file reads back byte-exact under its fid, the bytes in front of the data area are untouched;
    if some line is malformed gensquashfs fails in fstree_sort_files, before anything is packed. *)
 Theorem layout_follows_sort_file :
@@ -859,7 +869,10 @@ Print Assumptions layout_without_sort_file.
 
 (* the headline in terms of the nodes: of two files of the tree, the one the directives put first (lower priority, or
    the same priority and earlier in default order) has the smaller fid, and - if both store a block - lies first in
-   the data area unless the later one was deduplicated (allowed for that file) *)
+   the data area unless the later one was deduplicated (allowed for that file).
+   WEAK in its last clause for the same reason as layout_follows_order (audit 4, finding 1): for a file without
+   dont_deduplicate the offsets are not constrained here.  data_offsets_follow_priority_strong (last section) is the
+   statement without that escape. *)
 Theorem data_offsets_follow_priority :
   forall (hashf : list N -> N) (compress : list N -> option (list N))
          (uncompress : list N -> nat -> option (list N)) (bs : nat) (no_tail : bool) (file0 : list N)
@@ -897,11 +910,26 @@ Theorem sort_file_keeps_contents :
 Proof. exact layout_covers. Qed.
 Print Assumptions sort_file_keeps_contents.
 
-(* the serialized tree: sqfs_serialize_fstree reads fs->inodes ([pp_inodes pp]: the inode numbers) and the tree, never
-   fs->files or the priority / flags fields - the model of fstree_sort_files does not even return them; the only part
-   of the serializer's input ([Bridge.to_img fb xa pp]) that depends on the packing run are the file inodes [fb] the
-   block processor filled in (block start, size words, fragment reference).  With those erased ([shape_node]) the
-   input is the same for every packing order: same inode numbers, names, modes, owners, link counts, xattr indices *)
+(* REMARK, not a theorem about the sort file (audit 4, finding 2).  The statement below compares [to_img fb xa pp] with
+   [to_img fb' xa pp] under a map that erases the only field that depends on [fb]: the sort file is not a parameter of
+   either side, and the proof is [map_ext; reflexivity].  What it records is a MODELLING DECISION: the model of the sort
+   stage (OrderModel.sort_stage) returns the re-linked file list with priority / flag word per node and nothing else,
+   i.e. it is assumed that fstree_sort_files touches only fs->files, next_by_type, data.file.priority / .flags and
+   FLAG_FILE_ALREADY_MATCHED, so that [pp_inodes], the tree and every node's attributes are those of the C11 / ImgPost
+   post-process model with or without -S.  A heap-level model of sort_file_list (pointer surgery on next_by_type) with a
+   frame theorem and a refinement proof to SortModel.sel_sort was judged too costly for this round.  The decision is
+   CHECKED, not proved, by two tie legs of props/C17/check.py:
+     * component level (h_sort.c [digest_fs], every case of the sort tie): a digest of every byte of the fstree_t, of the
+       fs->inodes array and of every tree node (address, struct bytes, name, input file, link target, child order) with
+       exactly those four things masked is equal before and after the REAL fstree_sort_files - signature
+       sort-property:tree-touched;
+     * tool level (tool_case, every image of the tool oracle): every inode of the image packed with -S [-T] (number,
+       type, mode, uid / gid index, mtime, link count, xattr index, parent, directory size, file size), the inode
+       number behind every path and the directory walk equal those of the image packed without directives (independent
+       reader) - signature tree:metadata-differs -, and rdsquashfs -d of both images is identical
+       (tree:describe-differs).
+   The statement itself: the serializer's input is a function of (fb, xa, pp) in which fb enters only through the file
+   inodes the block processor filled in *)
 Theorem tree_unchanged_by_sort_file :
   forall (fb fb' : FstreeModel.path -> InodeModel.ibody) (xa : FstreeModel.path -> N) (pp : PostModel.ppout),
   map shape_node (Bridge.to_img fb xa pp) = map shape_node (Bridge.to_img fb' xa pp).
@@ -1006,3 +1034,396 @@ Theorem run_order_is_order_dir :
   = Some (order_dir fnmatch t scan_fnmatch d cfg sorted h sf).
 Proof. exact pack_dir_order. Qed.
 Print Assumptions run_order_is_order_dir.
+
+(* ================================================================================================ *)
+(* The STRONG layout theorems (audit 4, finding 1): what deduplication really guarantees            *)
+(* ================================================================================================ *)
+(* layout_follows_order / clause (2) of layout_follows_sort_file / data_offsets_follow_priority above say nothing about a
+   file that does not carry dont_deduplicate (their right disjunct holds for every such file).  The statements below close
+   that: the sharing escape is the run-level lift of share_only_identical_run, and for files whose first kept block is new
+   there is no escape at all - for EVERY flag word.  Model and quantification as for the directive theorems above.
+   Vocabulary (C17/ShareSpec.v):
+     [dent]               a log entry WITH its bytes: kind (LFile fid / LFrag idx), start offset, data
+     [put out e]          the output after the run e arrived on top of out: appended, then cut back to the end of whichever
+                          reaches further - the old output or the run at its (possibly earlier) location
+     [replay file0 log]   the output after all entries of log (newest first) arrived on top of file0
+     [srun .. files fid]  the blocks of file fid that reach the output, as the worker left them (not holes, not the
+                          empty sentinel); [disk_data .. fl d] = their bytes
+     [same_block a b]     same bytes, same compressed bit, same checksum
+     [frag_origin .. pb]  pb is what the worker makes of an assembled fragment block whose data begins with the tail
+                          end of some file
+     [fresh_first bs files j]  (boolean, on the INPUT) the first kept block of file j is not a block of any earlier
+                          file, and no file's tail end is a prefix of it *)
+From SqfsV Require Import C17.ShareSpec C17.ShareWriter C17.SharePipe C17.ShareTheorems C17.OrderStrong C17.ShareWitness.
+
+Theorem put_is : forall out e,
+  put out e = firstn (Nat.max (length out) (de_loc e + length (de_data e))) (out ++ de_data e).
+Proof. reflexivity. Qed.
+
+(* the rule of an entry [e] that arrives on top of the entries [older] *)
+Theorem dentry_ok_is : forall hashf compress bs files file0 dd older e,
+  dentry_ok hashf compress bs files file0 dd older e =
+  (let out := replay file0 older in
+   de_loc e = length out \/
+   (exists fid, de_kind e = LFile fid /\ dd fid = false /\ de_loc e < length out /\
+                slice (out ++ de_data e) (de_loc e) (length (de_data e)) = de_data e /\
+                exists c0 rest pb0, srun hashf compress bs files fid = c0 :: rest /\ same_block pb0 c0 /\
+                  ((exists f, In f (dfids older) /\ In pb0 (srun hashf compress bs files f)) \/
+                   frag_origin hashf compress bs files pb0))).
+Proof. reflexivity. Qed.
+
+Theorem fresh_first_is : forall bs files j,
+  fresh_first bs files j =
+  match nth_error files j with
+  | Some (fl, d) =>
+    match hd_error (filter (kept (uf_ignore_sparse fl)) (j_blocks (file_job bs fl d))) with
+    | Some b0 =>
+      forallb (fun f => negb (mem_block b0 (j_blocks (file_job bs (fst f) (snd f))))) (firstn j files) &&
+      forallb (fun f => match j_tail (file_job bs (fst f) (snd f)) with
+                        | Some t => negb (is_prefix t b0)
+                        | None => true
+                        end) files
+    | None => true
+    end
+  | None => true
+  end.
+Proof. reflexivity. Qed.
+
+(* ---- stored_run_at_start ------------------------------------------------------------------------- *)
+(* for ALL files, whatever their flags (dont_compress_stored (2) had it for DONT_COMPRESS only): the bytes at the block
+   start of the inode are the stored run of the file *)
+Theorem stored_run_at_start :
+  forall (hashf : list N -> N) (compress : list N -> option (list N))
+         (uncompress : list N -> nat -> option (list N)) (bs half : nat),
+  (forall b c, compress b = Some c -> length c < length b /\ forall n, length b <= n -> uncompress c n = Some b) ->
+  0 < bs -> (N.of_nat bs <= c_SQFS_MAX_BLOCK_SIZE)%N -> 0 < half ->
+  forall (file0 : list N) (files : list (uflags * list N)) (sched : list nat) (st : proc),
+  pack hashf compress uncompress bs false true half file0 files sched = DedupModel.Ok st ->
+  forall fid fl d, nth_error files fid = Some (fl, d) ->
+  slice (w_file (p_wr st)) (p_start st fid) (length (disk_data hashf compress bs fl d)) = disk_data hashf compress bs fl d /\
+  (disk_data hashf compress bs fl d <> [] ->
+   p_start st fid + length (disk_data hashf compress bs fl d) <= length (w_file (p_wr st))).
+Proof. exact stored_run_at_start_l. Qed.
+Print Assumptions stored_run_at_start.
+
+(* ---- layout_log_strong --------------------------------------------------------------------------- *)
+(* [strong_log .. st dlog]: the output IS the replay of dlog; every entry is fresh at the end of the output the older
+   entries left or is a file without DONT_DEDUPLICATE whose whole run stood at its start offset in that output
+   (continued by the run itself where it reaches beyond its end) and starts at a block of an earlier file / a fragment
+   block equal to its first block; the files appear in packing order; there is exactly one entry (LFile fid, block start,
+   stored run) per file that stores a block; the other entries are the written fragment blocks *)
+Theorem strong_log_is : forall hashf compress bs file0 files st dlog,
+  strong_log hashf compress bs file0 files st dlog =
+  (w_file (p_wr st) = replay file0 dlog /\
+   DLogOk hashf compress bs files file0 (fun fid => uf_dont_dedup (fl_of bs files fid)) dlog /\
+   StronglySorted gt (dfids dlog) /\
+   (forall fid fl d, nth_error files fid = Some (fl, d) -> disk_data hashf compress bs fl d <> [] ->
+      In {| de_kind := LFile fid; de_loc := p_start st fid; de_data := disk_data hashf compress bs fl d |} dlog) /\
+   (forall e fid, In e dlog -> de_kind e = LFile fid ->
+      exists fl d, nth_error files fid = Some (fl, d) /\ disk_data hashf compress bs fl d <> [] /\
+                   de_loc e = p_start st fid /\ de_data e = disk_data hashf compress bs fl d) /\
+   (forall e idx, In e dlog -> de_kind e = LFrag idx ->
+      idx < p_nfrag st /\ de_data e <> [] /\
+      exists w, p_ftab st idx = (de_loc e, w) /\ sw_size w = length (de_data e))).
+Proof. reflexivity. Qed.
+
+Theorem layout_log_strong :
+  forall (hashf : list N -> N) (compress : list N -> option (list N))
+         (uncompress : list N -> nat -> option (list N)) (bs half : nat),
+  (forall b c, compress b = Some c -> length c < length b /\ forall n, length b <= n -> uncompress c n = Some b) ->
+  0 < bs -> (N.of_nat bs <= c_SQFS_MAX_BLOCK_SIZE)%N -> 0 < half ->
+  forall (file0 : list N) (files : list (uflags * list N)) (sched : list nat) (st : proc),
+  pack hashf compress uncompress bs false true half file0 files sched = DedupModel.Ok st ->
+  exists dlog : list dent, strong_log hashf compress bs file0 files st dlog.
+Proof. exact layout_log_strong_l. Qed.
+Print Assumptions layout_log_strong.
+
+(* ---- layout_follows_order_strong ------------------------------------------------------------------ *)
+(* its reading for two files fid1 < fid2 that both store a block, for EVERY log with those properties: the entry of fid2
+   splits the log; [out_before] = the replay of the older part = the output when the first block of fid2 arrived;
+   it contains the run of fid1; and fid2 starts exactly at its end - hence behind fid1 - OR fid2 has no DONT_DEDUPLICATE,
+   starts inside out_before, its whole stored run stood there (all its bytes), and the block it starts at is a stored
+   block of an EARLIER file, or a fragment block, with the bytes, compressed bit and checksum of its first block *)
+Theorem layout_follows_order_strong :
+  forall (hashf : list N -> N) (compress : list N -> option (list N))
+         (uncompress : list N -> nat -> option (list N)) (bs half : nat),
+  (forall b c, compress b = Some c -> length c < length b /\ forall n, length b <= n -> uncompress c n = Some b) ->
+  0 < bs -> (N.of_nat bs <= c_SQFS_MAX_BLOCK_SIZE)%N -> 0 < half ->
+  forall (file0 : list N) (files : list (uflags * list N)) (sched : list nat) (st : proc),
+  pack hashf compress uncompress bs false true half file0 files sched = DedupModel.Ok st ->
+  forall dlog fid1 fid2 fl1 d1 fl2 d2,
+  strong_log hashf compress bs file0 files st dlog ->
+  fid1 < fid2 -> nth_error files fid1 = Some (fl1, d1) -> nth_error files fid2 = Some (fl2, d2) ->
+  disk_data hashf compress bs fl1 d1 <> [] -> disk_data hashf compress bs fl2 d2 <> [] ->
+  exists newer older,
+    dlog = newer ++ {| de_kind := LFile fid2; de_loc := p_start st fid2;
+                       de_data := disk_data hashf compress bs fl2 d2 |} :: older /\
+    let out_before := replay file0 older in
+    p_start st fid1 + length (disk_data hashf compress bs fl1 d1) <= length out_before /\
+    slice out_before (p_start st fid1) (length (disk_data hashf compress bs fl1 d1)) = disk_data hashf compress bs fl1 d1 /\
+    (p_start st fid2 = length out_before \/
+     (uf_dont_dedup fl2 = false /\ p_start st fid2 < length out_before /\
+      slice (out_before ++ disk_data hashf compress bs fl2 d2) (p_start st fid2)
+            (length (disk_data hashf compress bs fl2 d2)) = disk_data hashf compress bs fl2 d2 /\
+      exists c0 rest pb0, srun hashf compress bs files fid2 = c0 :: rest /\ same_block pb0 c0 /\
+        ((exists f, f < fid2 /\ In pb0 (srun hashf compress bs files f)) \/ frag_origin hashf compress bs files pb0))).
+Proof. exact layout_pair_strong_l. Qed.
+Print Assumptions layout_follows_order_strong.
+
+(* ---- distinct_data_laid_out_in_order --------------------------------------------------------------- *)
+(* no flag needed: a file whose first kept block is new (fresh_first, a decidable condition on the input) lies behind
+   every earlier file that stores a block ... *)
+Theorem distinct_first_block_behind :
+  forall (hashf : list N -> N) (compress : list N -> option (list N))
+         (uncompress : list N -> nat -> option (list N)) (bs half : nat),
+  (forall b c, compress b = Some c -> length c < length b /\ forall n, length b <= n -> uncompress c n = Some b) ->
+  0 < bs -> (N.of_nat bs <= c_SQFS_MAX_BLOCK_SIZE)%N -> 0 < half ->
+  forall (file0 : list N) (files : list (uflags * list N)) (sched : list nat) (st : proc),
+  pack hashf compress uncompress bs false true half file0 files sched = DedupModel.Ok st ->
+  forall fid1 fid2 fl1 d1 fl2 d2,
+  fid1 < fid2 -> nth_error files fid1 = Some (fl1, d1) -> nth_error files fid2 = Some (fl2, d2) ->
+  disk_data hashf compress bs fl1 d1 <> [] -> disk_data hashf compress bs fl2 d2 <> [] ->
+  fresh_first bs files fid2 = true ->
+  p_start st fid1 + length (disk_data hashf compress bs fl1 d1) <= p_start st fid2.
+Proof. exact fresh_behind_l. Qed.
+Print Assumptions distinct_first_block_behind.
+
+(* ... so if that holds for every file, the data start offsets are strictly increasing along the packing order - for
+   EVERY flag word of every file *)
+Theorem distinct_data_laid_out_in_order :
+  forall (hashf : list N -> N) (compress : list N -> option (list N))
+         (uncompress : list N -> nat -> option (list N)) (bs half : nat),
+  (forall b c, compress b = Some c -> length c < length b /\ forall n, length b <= n -> uncompress c n = Some b) ->
+  0 < bs -> (N.of_nat bs <= c_SQFS_MAX_BLOCK_SIZE)%N -> 0 < half ->
+  forall (file0 : list N) (files : list (uflags * list N)) (sched : list nat) (st : proc),
+  pack hashf compress uncompress bs false true half file0 files sched = DedupModel.Ok st ->
+  (forall j, j < length files -> fresh_first bs files j = true) ->
+  forall fid1 fid2 fl1 d1 fl2 d2,
+  fid1 < fid2 -> nth_error files fid1 = Some (fl1, d1) -> nth_error files fid2 = Some (fl2, d2) ->
+  disk_data hashf compress bs fl1 d1 <> [] -> disk_data hashf compress bs fl2 d2 <> [] ->
+  p_start st fid1 + length (disk_data hashf compress bs fl1 d1) <= p_start st fid2 /\
+  p_start st fid1 < p_start st fid2.
+Proof. exact distinct_in_order_l. Qed.
+Print Assumptions distinct_data_laid_out_in_order.
+
+(* ---- layout_follows_sort_file_strong --------------------------------------------------------------- *)
+(* [layout_ok_strong .. pp ds order st] = layout_ok (the five clauses of layout_follows_sort_file) /\ [share_ok]:
+   for the list pack_files hands to the block processor ([packed_files]: flag word of the sort file, -T applied, contents)
+   (a) stored_run_at_start for every file of the order, (b) the strong layout log exists, (c) its pairwise reading as in
+   layout_follows_order_strong with the flag test on the sort file's flag word, (d) distinct_first_block_behind *)
+Theorem share_ok_is : forall hashf compress bs no_tail file0 contents order st,
+  share_ok hashf compress bs no_tail file0 contents order st =
+  (let files := packed_files no_tail bs contents order in
+   let sbytes := stored_bytes hashf compress bs no_tail in
+   (forall fid f, nth_error order fid = Some f ->
+      slice (w_file (p_wr st)) (p_start st fid) (length (sbytes contents f)) = sbytes contents f /\
+      (sbytes contents f <> [] -> p_start st fid + length (sbytes contents f) <= length (w_file (p_wr st)))) /\
+   (exists dlog, strong_log hashf compress bs file0 files st dlog) /\
+   (forall dlog, strong_log hashf compress bs file0 files st dlog ->
+    forall i j fi fj, i < j -> nth_error order i = Some fi -> nth_error order j = Some fj ->
+      sbytes contents fi <> [] -> sbytes contents fj <> [] ->
+      exists newer older,
+        dlog = newer ++ {| de_kind := LFile j; de_loc := p_start st j; de_data := sbytes contents fj |} :: older /\
+        let out_before := replay file0 older in
+        p_start st i + length (sbytes contents fi) <= length out_before /\
+        slice out_before (p_start st i) (length (sbytes contents fi)) = sbytes contents fi /\
+        (p_start st j = length out_before \/
+         (FlagModel.has_bit (pf_flags fj) c_SQFS_BLK_DONT_DEDUPLICATE = false /\ p_start st j < length out_before /\
+          slice (out_before ++ sbytes contents fj) (p_start st j) (length (sbytes contents fj)) = sbytes contents fj /\
+          exists c0 rest pb0, srun hashf compress bs files j = c0 :: rest /\ same_block pb0 c0 /\
+            ((exists f, f < j /\ In pb0 (srun hashf compress bs files f)) \/ frag_origin hashf compress bs files pb0)))) /\
+   (forall i j fi fj, i < j -> nth_error order i = Some fi -> nth_error order j = Some fj ->
+      sbytes contents fi <> [] -> sbytes contents fj <> [] ->
+      fresh_first bs files j = true ->
+      p_start st i + length (sbytes contents fi) <= p_start st j)).
+Proof. reflexivity. Qed.
+
+Theorem layout_follows_sort_file_strong :
+  forall (hashf : list N -> N) (compress : list N -> option (list N))
+         (uncompress : list N -> nat -> option (list N)) (bs half : nat),
+  (forall b c, compress b = Some c -> length c < length b /\ forall n, length b <= n -> uncompress c n = Some b) ->
+  0 < bs -> (N.of_nat bs <= c_SQFS_MAX_BLOCK_SIZE)%N -> 0 < half ->
+  forall (no_tail : bool) (file0 : list N) (sched : list nat) (fnmatch : list N -> list N -> bool -> bool)
+         (t : bool) (host : list N -> list N) (d : FstreeModel.fsdefaults) (ops : list Bridge.op)
+         (fs : FstreeModel.fstree) (pp : PostModel.ppout) (text : list N),
+  ops_clean ops ->
+  Bridge.run_adds d (FstreeModel.fs_init d) ops = Some fs ->
+  PostModel.post_process fs = PostModel.POk pp ->
+  match parse_all t (get_lines text) with
+  | Some ds =>
+      exists (order : list pfile) (st : proc),
+        pack_ops fnmatch t hashf compress uncompress bs half no_tail file0 host sched d ops (Some text) = ODone order st /\
+        layout_ok_strong hashf compress uncompress bs no_tail file0 fnmatch host pp ds order st
+  | None =>
+      pack_ops fnmatch t hashf compress uncompress bs half no_tail file0 host sched d ops (Some text) = OSortErr
+  end.
+Proof. exact layout_strong_ops. Qed.
+Print Assumptions layout_follows_sort_file_strong.
+
+Theorem layout_follows_sort_file_strong_scanned :
+  forall (hashf : list N -> N) (compress : list N -> option (list N))
+         (uncompress : list N -> nat -> option (list N)) (bs half : nat),
+  (forall b c, compress b = Some c -> length c < length b /\ forall n, length b <= n -> uncompress c n = Some b) ->
+  0 < bs -> (N.of_nat bs <= c_SQFS_MAX_BLOCK_SIZE)%N -> 0 < half ->
+  forall (no_tail : bool) (file0 : list N) (sched : list nat) (fnmatch : list N -> list N -> bool -> bool)
+         (t : bool) (host : list N -> list N) (scan_fnmatch : list N -> list N -> bool -> bool)
+         (d : FstreeModel.fsdefaults) (cfg : ScanModel.scfg) (sorted : bool) (h : ScanModel.hnode)
+         (pp : PostModel.ppout) (text : list N),
+  ScanLinks.cleanp (ScanModel.c_prefix cfg) ->
+  ScanLinks.hok_rootb (if sorted then ScanModel.canon h else h) = true ->
+  PackModel.scan_post scan_fnmatch d cfg sorted h (FstreeModel.fs_init d) = Some (PostModel.POk pp) ->
+  match parse_all t (get_lines text) with
+  | Some ds =>
+      exists (order : list pfile) (st : proc),
+        pack_dir fnmatch t hashf compress uncompress bs half no_tail file0 host sched scan_fnmatch d cfg sorted h (Some text)
+        = ODone order st /\
+        layout_ok_strong hashf compress uncompress bs no_tail file0 fnmatch host pp ds order st
+  | None =>
+      pack_dir fnmatch t hashf compress uncompress bs half no_tail file0 host sched scan_fnmatch d cfg sorted h (Some text)
+      = OSortErr
+  end.
+Proof. exact layout_strong_dir. Qed.
+Print Assumptions layout_follows_sort_file_strong_scanned.
+
+Theorem layout_follows_sort_file_strong_tree :
+  forall (hashf : list N -> N) (compress : list N -> option (list N))
+         (uncompress : list N -> nat -> option (list N)) (bs half : nat),
+  (forall b c, compress b = Some c -> length c < length b /\ forall n, length b <= n -> uncompress c n = Some b) ->
+  0 < bs -> (N.of_nat bs <= c_SQFS_MAX_BLOCK_SIZE)%N -> 0 < half ->
+  forall (no_tail : bool) (file0 : list N) (sched : list nat) (fnmatch : list N -> list N -> bool -> bool)
+         (t : bool) (host : list N -> list N) (pp : PostModel.ppout) (text : list N),
+  files_ok pp ->
+  match parse_all t (get_lines text) with
+  | Some ds =>
+      exists (order : list pfile) (st : proc),
+        pack_sorted fnmatch t hashf compress uncompress bs half no_tail file0 host sched pp (Some text) = ODone order st /\
+        layout_ok_strong hashf compress uncompress bs no_tail file0 fnmatch host pp ds order st
+  | None => pack_sorted fnmatch t hashf compress uncompress bs half no_tail file0 host sched pp (Some text) = OSortErr
+  end.
+Proof. exact layout_strong_pp. Qed.
+Print Assumptions layout_follows_sort_file_strong_tree.
+
+Theorem layout_without_sort_file_strong :
+  forall (hashf : list N -> N) (compress : list N -> option (list N))
+         (uncompress : list N -> nat -> option (list N)) (bs half : nat),
+  (forall b c, compress b = Some c -> length c < length b /\ forall n, length b <= n -> uncompress c n = Some b) ->
+  0 < bs -> (N.of_nat bs <= c_SQFS_MAX_BLOCK_SIZE)%N -> 0 < half ->
+  forall (no_tail : bool) (file0 : list N) (sched : list nat) (fnmatch : list N -> list N -> bool -> bool)
+         (t : bool) (host : list N -> list N) (pp : PostModel.ppout),
+  files_ok pp ->
+  exists (order : list pfile) (st : proc),
+    pack_sorted fnmatch t hashf compress uncompress bs half no_tail file0 host sched pp None = ODone order st /\
+    layout_ok_strong hashf compress uncompress bs no_tail file0 fnmatch host pp [] order st /\
+    order = annot_list fnmatch [] (PostModel.pp_files pp).
+Proof. exact layout_strong_default. Qed.
+Print Assumptions layout_without_sort_file_strong.
+
+(* the headline in terms of the nodes, with NO escape: if the first kept block of every file of the packing list is new,
+   then of two files of the tree the one the directives put first (lower priority, or the same priority and earlier in
+   default order) has the smaller fid and - if both store a block - lies strictly first in the data area, whatever the
+   sort file says about flags *)
+Theorem data_offsets_follow_priority_strong :
+  forall (hashf : list N -> N) (compress : list N -> option (list N))
+         (uncompress : list N -> nat -> option (list N)) (bs half : nat),
+  (forall b c, compress b = Some c -> length c < length b /\ forall n, length b <= n -> uncompress c n = Some b) ->
+  0 < bs -> (N.of_nat bs <= c_SQFS_MAX_BLOCK_SIZE)%N -> 0 < half ->
+  forall (no_tail : bool) (file0 : list N)
+         (fnmatch : list N -> list N -> bool -> bool) (host : list N -> list N)
+         (pp : PostModel.ppout) (ds : list directive) (order : list pfile) (st : proc) (fa fb : pfile),
+  files_ok pp ->
+  layout_ok_strong hashf compress uncompress bs no_tail file0 fnmatch host pp ds order st ->
+  (forall j, j < length order ->
+             fresh_first bs (packed_files no_tail bs (node_contents host pp) order) j = true) ->
+  In fa order -> In fb order -> pf_before fa fb ->
+  exists i j : nat,
+    fid_of order (pf_path fa) = Some i /\ fid_of order (pf_path fb) = Some j /\ i < j /\
+    (stored_bytes hashf compress bs no_tail (node_contents host pp) fa <> [] ->
+     stored_bytes hashf compress bs no_tail (node_contents host pp) fb <> [] ->
+     p_start st i + length (stored_bytes hashf compress bs no_tail (node_contents host pp) fa) <= p_start st j /\
+     p_start st i < p_start st j).
+Proof. exact layout_by_priority_strong. Qed.
+Print Assumptions data_offsets_follow_priority_strong.
+
+(* ---- non-vacuity ------------------------------------------------------------------------------------ *)
+(* block size 8, toy compressor, constant checksum (ex_directive_hyps); fl0 = no flag at all.
+   Two identical files at default flags: the second one is SHARED - the right disjunct of layout_follows_order_strong
+   fires: start 0 < 8 = |out_before|, the bytes that stood there are its run, the block it starts at is the stored block of
+   file 0; fresh_first is false for it (and true for file 0) *)
+Example ex_share_identical :
+  match run ex_same_files with
+  | DedupModel.Ok st =>
+      disk_data const_hash toy_compress 8 fl0 blkX = blkX /\
+      p_start st 0 = 0 /\ p_start st 1 = 0 /\
+      let older := [{| de_kind := LFile 0; de_loc := 0; de_data := blkX |}] in
+      w_file (p_wr st) = replay [] ({| de_kind := LFile 1; de_loc := 0; de_data := blkX |} :: older) /\
+      p_start st 1 < length (replay [] older) /\
+      slice (replay [] older ++ blkX) (p_start st 1) (length blkX) = blkX /\
+      srun const_hash toy_compress 8 ex_same_files 1 = srun const_hash toy_compress 8 ex_same_files 0 /\
+      fresh_first 8 ex_same_files 1 = false /\ fresh_first 8 ex_same_files 0 = true
+  | _ => False
+  end.
+Proof. exact ex_same. Qed.
+
+(* a run shared into ITSELF: X, then X X - the second file's blocks are appended at 8, found at 0 (the second block of the
+   match is its own first block), the output is cut back to 16 bytes: "out_before continued by the run itself" *)
+Example ex_share_overlap :
+  match run ex_overlap_files with
+  | DedupModel.Ok st =>
+      p_start st 0 = 0 /\ p_start st 1 = 0 /\ length (w_file (p_wr st)) = 16 /\
+      let older := [{| de_kind := LFile 0; de_loc := 0; de_data := blkX |}] in
+      w_file (p_wr st) = replay [] ({| de_kind := LFile 1; de_loc := 0; de_data := blkX ++ blkX |} :: older) /\
+      length (replay [] older) = 8 /\
+      slice (replay [] older ++ blkX ++ blkX) 0 16 = blkX ++ blkX
+  | _ => False
+  end.
+Proof. exact ex_overlap. Qed.
+
+(* four distinct files at DEFAULT flags (a tail-only file among them; later blocks repeat earlier ones): the hypothesis of
+   distinct_data_laid_out_in_order holds ... *)
+Example ex_distinct_hyps : forall j, j < length ex_distinct_files -> fresh_first 8 ex_distinct_files j = true.
+Proof. exact ex_distinct_hyp. Qed.
+
+(* ... and the block starts are strictly increasing along the packing order: 0, -, 8, 24 *)
+Example ex_distinct_offsets :
+  match run ex_distinct_files with
+  | DedupModel.Ok st =>
+      map (fun k => (p_start st k, p_nwords st k)) (seq 0 4) = [(0, 1); (0, 0); (8, 2); (24, 2)] /\
+      length (w_file (p_wr st)) = 44
+  | _ => False
+  end.
+Proof. exact ex_distinct. Qed.
+
+(* the tool level: the run of ex_order_run (flag word 0 on four of its five files, OUTSIDE what the old clause (2)
+   constrained) meets the hypothesis of data_offsets_follow_priority_strong, and its offsets 0, 8, 16, 29 increase *)
+Example ex_order_strong :
+  match Bridge.run_adds ex_d (FstreeModel.fs_init ex_d) ex_ops with
+  | Some fs =>
+    match PostModel.post_process fs with
+    | PostModel.POk pp =>
+      match pack_sorted star_fnmatch true const_hash toy_compress toy_uncompress 8 4096 false [] ex_host [] pp
+                        (Some ex_sortfile) with
+      | ODone order st =>
+          length order = 5 /\
+          forallb (fresh_first 8 (packed_files false 8 (node_contents ex_host pp) order)) (seq 0 5) = true /\
+          map (fun k => p_start st k) [0; 2; 3; 4] = [0; 8; 16; 29]
+      | _ => False
+      end
+    | _ => False
+    end
+  | None => False
+  end.
+Proof. exact ex_order_fresh. Qed.
+
+(* the tool level, sharing: nodes a and z with identical contents, the sort file  -1 z  puts z first; a (no flag) is
+   shared with it: same block start, same fragment reference; fresh_first is false for it *)
+Example ex_order_share :
+  match pack_ops star_fnmatch true const_hash toy_compress toy_uncompress 8 4096 false [] ex_host_same [] ex_d ex_ops_same
+                 (Some ex_sortfile_same) with
+  | ODone order st =>
+      map (fun f => (pf_path f, pf_prio f, pf_flags f)) order = [([n_z], (-1)%Z, 0%N); ([n_a], 0%Z, 0%N)] /\
+      p_start st 0 = 0 /\ p_start st 1 = 0 /\ p_frag st 0 = Some (0, 0) /\ p_frag st 1 = Some (0, 0) /\
+      map (stored_bytes const_hash toy_compress 8 false (fun _ => blkX ++ [9]%N)) order = [blkX; blkX] /\
+      fresh_first 8 (packed_files false 8 (fun _ => blkX ++ [9]%N) order) 1 = false
+  | _ => False
+  end.
+Proof. exact ex_order_shared. Qed.
